@@ -44,6 +44,7 @@ def cases(tier):
             for perm in itertools.permutations(range(n)):
                 yield dict(kind="weights", n=n, inter=inter, perm=list(perm), tier=tier)
     yield from edit_cases(tier)
+    yield from reconcile_cases(tier)
     levels = [BASE - 1, BASE, BASE + 0.3, BASE + 1]
     for n in range(1, (4 if tier == "thorough" else 3) + 1):
         multi = [c for r in range(2, n + 1) for c in itertools.combinations(range(n), r)]
@@ -69,6 +70,48 @@ def edit_cases(tier):
                     if tier == "thorough" and d == 3 and n == 3 and hist[0] % 2:
                         continue
                     yield dict(kind="edits", n=n, inter=inter, hist=[list(ops[i]) for i in hist], tier=tier)
+
+
+def reconcile_cases(tier):
+    """the library's own route for changing baselines / outcomes in place: reconciliation"""
+    for inter in INTER:
+        for groups in ("b", "bo", "ubo"):
+            for path in ([1, 3, 0, 2, 5, 4, 1], [0, 0, 1, 1, 2, 2], [3, 2, 1, 0]):
+                yield dict(kind="reconciled", inter=inter, groups=groups, path=path)
+
+
+def run_reconciled(case):
+    from mc import simspace
+    from mc.build import World
+    from mc.asdctl import scripted
+
+    spec = simspace.combined_spec(0.25, v=0.3, dur=1.0, tj=0.2, pa=0.3, d=0.01, br=5.0, prog=True)
+    co0 = spec["progs"]["covouts"][0]
+    co0["inter"] = case["inter"]
+    co0["imp"] = "P1+P2=0.95"
+    w = World(spec)
+    g = case["groups"]
+    with scripted(case["path"]):
+        new, _, _ = at.reconcile(w.P, w.parset, w.progset, 2001.0, max_time=1e9, unit_cost_bounds=0.05 if "u" in g else 0.0, baseline_bounds=0.3 if "b" in g else 0.0, outcome_bounds=0.1 if "o" in g else 0.0)
+    vs = []
+    states = moved = 0
+    for key, co in new.covouts.items():
+        old = w.progset.covouts[key]
+        moved += int(co.baseline != old.baseline or dict(co.progs) != dict(old.progs))
+        # an object built from the visible data of the reconciled one (baseline, outcomes, interaction strings)
+        fresh = at.Covout(co.par, co.pop, dict(co.progs), cov_interaction=co.cov_interaction, imp_interaction=co.imp_interaction, baseline=co.baseline, uncertainty=0.0)
+        nm = list(co.progs)
+        for c in itertools.product([0.0, 0.25, 0.5, 1.0], repeat=len(nm)):
+            states += 1
+            a, b = float(co.get_outcome(cv(nm, c))), float(fresh.get_outcome(cv(nm, c)))
+            if abs(a - b) > 1e-9:
+                vs.append(V("reconciled-object-differs-from-fresh", f"{case['inter']} reconcile[{g}] path {case['path']}: {key} baseline {old.baseline!r}->{co.baseline!r}: coverage {dict(zip(nm, c))} gives {a!r}, an object built from the same visible data gives {b!r}", None))
+                break
+    if not moved:
+        from mc.runner import HarnessError
+
+        raise HarnessError(f"reconcile[{g}] along {case['path']} moved nothing")
+    return dict(states=states, transitions=1, traces=states, nontrivial=True, violations=vs[:3], counters=dict(reconciled_sets=1))
 
 
 def run_edits(case):
@@ -233,4 +276,4 @@ def run_table(case):
 
 
 def run_case(case):
-    return dict(weights=run_weights, table=run_table, edits=run_edits)[case["kind"]](case)
+    return dict(weights=run_weights, table=run_table, edits=run_edits, reconciled=run_reconciled)[case["kind"]](case)
